@@ -264,9 +264,20 @@ impl KrpcSocket {
 
     fn is_expected_response(&mut self, message: &Message, from: &SocketAddrV4) -> bool {
         // Positive or an error response or to an inflight request.
-        match self.inflight_requests.remove(message.transaction_id) {
-            Some(request) => {
-                if compare_socket_addr(&request.to, from) {
+        // Compare the address before consuming the inflight request, otherwise a spoofed
+        // message with a guessed (sequential) transaction id from any address would cancel
+        // the request and the genuine response would then be dropped as unexpected.
+        let to = self
+            .inflight_requests
+            .find_by_tid(message.transaction_id)
+            .ok()
+            .map(|index| self.inflight_requests.requests[index].to);
+
+        match to {
+            Some(to) => {
+                if compare_socket_addr(&to, from) {
+                    self.inflight_requests.remove(message.transaction_id);
+
                     return true;
                 } else {
                     trace!(
